@@ -14,8 +14,8 @@ import (
 )
 
 var reprDocs = []string{
-	`{"people":[{"name":"zz","age":9,"tags":["t2","t1"]},{"name":"�é","age":1e21,"tags":["𝄞","á"]},{"name":"ǆ","age":-0,"tags":[]},{"name":"a","age":0,"tags":["\u007f"]}],"nums":[3,-0,0,1e21,1e-7,0.23333333333333334,2],"strs":["c","�abc","𝄞","9223372036854775808","a"],"o1":{"k":[2,1],"j":[1e-7,-0],"n":{"x":1,"y":2,"d":{"p":1}}},"o2":{"k":[0],"z":"𝄞","n":{"x":3,"d":{"q":2}}},"nested":[[2,1],[1e21],[],"x"],"lists":[[2,1],[3],[],[5,4,6]],"sorted":[1,2,3,5],"sstrs":["a","b","c"],"one":[7],"ranked":[{"r":1,"v":"x"},{"r":2,"v":"y"},{"r":2,"v":"z"}]}`,
-	`{"people":[{"name":"a","age":0,"tags":["\u007f"]},{"name":"ǆ","age":-0,"tags":[]},{"name":"zz","age":5e-324,"tags":["t2","t1"]}],"nums":[0,-0,6.02214076e23,1.2345678901234568e-10,9007199254740993,1],"strs":["9999999999999999999","0.23333333333333334","é𝄞","\u0080"],"o1":{"k":[1e21],"j":[0],"n":{"x":-0,"y":1e21,"d":{}}},"o2":{"k":[-0],"n":{"x":0,"d":{"q":[]}}},"nested":[[0,-0],[-0,0]],"lists":[[0],[-0],[],[1e21,1e-7]],"sorted":[-0,0,1e-7,1e21],"sstrs":["","a","𝄞"],"one":[-0],"ranked":[{"r":0,"v":"x"},{"r":-0,"v":"y"},{"r":1e21,"v":"z"},{"r":1e21,"v":"w"}]}`,
+	`{"people":[{"name":"zz","age":9,"tags":["t2","t1"]},{"name":"�é","age":1e21,"tags":["𝄞","á"]},{"name":"ǆ","age":-0,"tags":[]},{"name":"a","age":0,"tags":["\u007f"]}],"nums":[3,-0,0,1e21,1e-7,0.23333333333333334,2],"strs":["c","�abc","𝄞","9223372036854775808","a"],"o1":{"k":[2,1],"j":[1e-7,-0],"n":{"x":1,"y":2,"d":{"p":1}}},"o2":{"k":[0],"z":"𝄞","n":{"x":3,"d":{"q":2}}},"nested":[[2,1],[1e21],[],"x"],"lists":[[2,1],[3],[],[5,4,6]],"empty":{},"emptyl":[],"sorted":[1,2,3,5],"sstrs":["a","b","c"],"one":[7],"ranked":[{"r":1,"v":"x"},{"r":2,"v":"y"},{"r":2,"v":"z"}]}`,
+	`{"people":[{"name":"a","age":0,"tags":["\u007f"]},{"name":"ǆ","age":-0,"tags":[]},{"name":"zz","age":5e-324,"tags":["t2","t1"]}],"nums":[0,-0,6.02214076e23,1.2345678901234568e-10,9007199254740993,1],"strs":["9999999999999999999","0.23333333333333334","é𝄞","\u0080"],"o1":{"k":[1e21],"j":[0],"n":{"x":-0,"y":1e21,"d":{}}},"o2":{"k":[-0],"n":{"x":0,"d":{"q":[]}}},"nested":[[0,-0],[-0,0]],"lists":[[0],[-0],[],[1e21,1e-7]],"empty":{},"emptyl":[],"sorted":[-0,0,1e-7,1e21],"sstrs":["","a","𝄞"],"one":[-0],"ranked":[{"r":0,"v":"x"},{"r":-0,"v":"y"},{"r":1e21,"v":"z"},{"r":1e21,"v":"w"}]}`,
 }
 
 // TestC13Representation: reuse (fresh, repeated after other documents, primed by documents
